@@ -143,6 +143,16 @@ func zzCompareWithRef(in []byte) {
 	var msg ast.HSMSMessage
 	var ok bool
 	inCopy := append([]byte{}, in...)
+	if spare := rt.ParamOr("spare", 0); spare > 0 {
+		// the input is the front part of a larger receive buffer: what lies behind it (zeros, or a
+		// copy of the input's own bytes) is not part of the message
+		buf := make([]byte, len(in)+spare)
+		copy(buf, in)
+		if spare%2 == 1 {
+			copy(buf[len(in):], in)
+		}
+		in = buf[:len(in)]
+	}
 	msg, ok = Parse(in)
 	kind, canon := zzRefMessage(inCopy)
 	if kind == 0 {
